@@ -33,8 +33,8 @@ type vPackCase struct {
 	Vout     bool   `json:"vout"`
 	Crc      bool   `json:"crc"`
 	Comp     bool   `json:"comp"`
-	Member   []int  `json:"member"` // metadata sizes of queued alive broadcasts
-	User     []int  `json:"user"`   // sizes of queued user broadcasts
+	Member   []int  `json:"member"`   // metadata sizes of queued alive broadcasts
+	User     []int  `json:"user"`     // sizes of queued user broadcasts
 	FillUser bool   `json:"fillUser"` // add one user broadcast sized to fill the budget exactly
 }
 
@@ -42,14 +42,14 @@ type vPackLine struct {
 	Ev   string `json:"ev"`
 	Case int    `json:"case"`
 	vPackCase
-	Limit      int   `json:"limit"`    // byte limit handed to the queue
-	Overhead   int   `json:"overhead"` // per-message overhead handed to the queue
-	PrimaryLen int   `json:"primaryLen"`
-	Packed     []int `json:"packed"` // lengths of the messages handed out (framed)
-	Frames     []int `json:"frames"` // wire length of every buffer given to the transport
-	Lost       int   `json:"lost"`   // handed out but never seen by the receiver's handlers
-	Extra      int   `json:"extra"`  // seen by the receiver but never handed out
-	Got        int   `json:"got"`
+	Limit      int    `json:"limit"`    // byte limit handed to the queue
+	Overhead   int    `json:"overhead"` // per-message overhead handed to the queue
+	PrimaryLen int    `json:"primaryLen"`
+	Packed     []int  `json:"packed"` // lengths of the messages handed out (framed)
+	Frames     []int  `json:"frames"` // wire length of every buffer given to the transport
+	Lost       int    `json:"lost"`   // handed out but never seen by the receiver's handlers
+	Extra      int    `json:"extra"`  // seen by the receiver but never handed out
+	Got        int    `json:"got"`
 	Note       string `json:"note"`
 }
 
@@ -60,8 +60,8 @@ type vPackDelegate struct {
 	fill  bool
 }
 
-func (d *vPackDelegate) NodeMeta(limit int) []byte  { return nil }
-func (d *vPackDelegate) LocalState(join bool) []byte { return nil }
+func (d *vPackDelegate) NodeMeta(limit int) []byte     { return nil }
+func (d *vPackDelegate) LocalState(join bool) []byte   { return nil }
 func (d *vPackDelegate) MergeRemoteState([]byte, bool) {}
 func (d *vPackDelegate) NotifyMsg(b []byte) {
 	d.mu.Lock()
